@@ -42,6 +42,10 @@ func genC17(t *rapid.T) C17Case {
 			c.Len = 1
 		}
 	}
+	if c.Cmd == "format" {
+		// format rebuilds directive lines from their parts: a long value must survive that too
+		c.Long = rapid.SampledFrom([]string{"entry", "comment", "define", "prefix", "suffix", "include-pairs"}).Draw(t, "longfmt")
+	}
 	n := rapid.SampledFrom([]int{0, 0, 1, 2, 3, 4, 5, 6}).Draw(t, "words") // 0: the long line is the only line
 	perm := rapid.Permutation(c17Words).Draw(t, "perm")
 	c.Words = perm[:n]
@@ -222,12 +226,21 @@ func checkC17(c C17Case) Outcome {
 		}
 	case "format":
 		long := tok
-		if c.Long == "comment" {
+		switch c.Long {
+		case "comment":
 			long = "##! " + tok
+		case "define":
+			long = "##!> define longname " + tok
+		case "prefix":
+			long = "##!^ " + tok
+		case "suffix":
+			long = "##!$ " + tok
+		case "include-pairs":
+			long = "##!> include words -- @ " + tok
 		}
 		lines := insert(c.Words, long)
 		content := join(lines)
-		tree := cli.Tree{"regex-assembly/932100.ra": content}
+		tree := cli.Tree{"regex-assembly/932100.ra": content, "regex-assembly/include/words.ra": "w1@\nw2\n"}
 		if err := tree.Write(root); err != nil {
 			panic(err)
 		}
